@@ -158,7 +158,7 @@ def imm_values(o, rng):
     return [0, 1, 0x7FFFFFFF, 0x80000000, 0xFFFFFFFF, 0x100000000, 0x123456789ABCDEF0, 1 << 63, M64, rng.getrandbits(64)]
 
 
-def instantiate(f, roles, mode, rng, want_mem, tier_rich=False):
+def instantiate(f, roles, mode, rng, want_mem, tier_rich=False, force_opt=None):
     """-> emit-line tail `<name> <opts> <k> <operands...>` or None. want_mem: prefer the memory alternative of r/m operands."""
     if f["arch"] == "X86" and mode == 64 or f["arch"] == "X64" and mode == 32:
         return None
@@ -266,7 +266,9 @@ def instantiate(f, roles, mode, rng, want_mem, tier_rich=False):
     if pf.get("rep") and rng.random() < 0.4:
         opts.append(pick(rng, ["rep", "repne"]) if pf.get("repne") else "rep")
     r = rng.random()
-    if r < 0.04 and mode == 64 and not used_hi and f["prefix"] == "":
+    if force_opt:
+        opts.append(force_opt)      # deterministic option pass of the sweep (encoding-choice options)
+    elif r < 0.04 and mode == 64 and not used_hi and f["prefix"] == "":
         opts.append("rex")
     elif r < 0.10 and f["prefix"] == "VEX":
         opts.append("vex3")
